@@ -475,12 +475,16 @@ class Builder(object):
           self.collect(x, zones, depth + 1)
       self.t['iter'][i] = (Z(i), opt(items, self.vals))
 
-  def tables(self):
+  def tables(self, need=None):
+    """need: names of the tables the model can consult for this case (others are left empty); None = all"""
     order = ['float_of_str', 'float_of_bytes', 'float_repr', 'fmt15g', 'str', 'repr', 'type_name', 'json', 'iso',
              'int_of_str', 'lower', 'utf8', 'zone_known', 'dt_offset', 'ts_offset', 'truthy', 'float_of_opaque',
              'iter']
     parts = []
     for name in order:
+      if need is not None and name not in need:
+        parts.append('[]')
+        continue
       parts.append('[' + '; '.join('(%s, %s)' % kv for kv in self.t[name].values()) + ']')
     return '(Build_tables %s)' % ' '.join(parts)
 
@@ -815,3 +819,24 @@ def namespace():
 
 def from_expr(expr):
   return eval(expr, namespace())   # expressions written by to_expr / by hand in known_findings.json
+
+
+ALWAYS = ('str', 'repr', 'type_name', 'float_repr')
+NEEDS = {
+  'Text': ('utf8', 'fmt15g'), 'Choice': ('utf8', 'fmt15g'), 'Blob': (), 'Any': (),
+  'Bool': ('truthy', 'lower'),
+  'Int': ('float_of_str', 'float_of_bytes', 'float_of_opaque'),
+  'Numeric': ('float_of_str', 'float_of_bytes', 'float_of_opaque'),
+  'PositionNumber': ('float_of_str', 'float_of_bytes', 'float_of_opaque'),
+  'ManualSortPos': ('float_of_str', 'float_of_bytes', 'float_of_opaque'),
+  'Date': ('iso', 'float_of_opaque'),
+  'DateTime': ('iso', 'float_of_opaque', 'dt_offset', 'ts_offset', 'zone_known'),
+  'ChoiceList': ('json', 'iter', 'truthy'),
+  'Id': ('truthy',), 'Reference': ('truthy',),
+  'ReferenceList': ('json', 'int_of_str', 'iter', 'truthy'), 'Attachments': ('json', 'int_of_str', 'iter', 'truthy'),
+}
+
+
+def needs(T):
+  """The oracle tables convert() of this type object can consult (read off Model/Values.v)."""
+  return set(ALWAYS) | set(NEEDS[type(T).__name__])
